@@ -41,6 +41,8 @@ def cases(tier, seed):
         for sp in range(4 if tier == "quick" else 12):
             out.append({"kind": "create", "si": si, "sp": sp})
             out.append({"kind": "create", "si": si, "sp": sp, "single": True})
+            for pen in ("ObjectiveFilter", "LagrangianFilter", "ParetoDecrease"):
+                out.append({"kind": "create", "si": si, "sp": sp, "penalty": pen})
     return out
 
 
@@ -197,7 +199,7 @@ def run_case(case):
         typ = ["Nominal", "GradJac", "KKT"][case["si"]]
         sc_spec = {"type": typ, "at": pt, "dual": [0.5, -1.5][:m]}
         prob = UserProblem(spec)
-        params = make_params({"params": {"precision": "Single"}} if case.get("single") else {}, sc_spec)
+        params = make_params({"params": {"precision": "Single"}} if case.get("single") else ({"penalty": case["penalty"]} if case.get("penalty") else {}), sc_spec)
         stats = {"inputs": 1}
         at = {"spec": spec["tag"], "type": typ, "at": pt}
         F = Funcs(spec)
@@ -235,7 +237,7 @@ def run_case(case):
                     cs = float(np.sum(np.abs(K[:, j])))
                     if not (1.0 <= cs < 4.0):
                         bad("kkt_column_sum", f"column {j} sum {cs!r}", at)
-        key = f"create|{typ}|{case['sp']}|{case.get('single')}"
+        key = f"create|{typ}|{case['sp']}|{case.get('single')}|{case.get('penalty')}"
     seen, vs = set(), []
     for v in viol:
         if v["sig"] not in seen:
